@@ -9,6 +9,7 @@
 -/
 import ClairModel.Proofs.Coalesce
 import ClairModel.Proofs.LayerFS
+import ClairModel.Proofs.MergeOrder
 
 -- every variable of a property statement is bound explicitly: a misspelt name is an error, not a new variable
 set_option autoImplicit false
@@ -373,5 +374,47 @@ set_option maxRecDepth 10000 in
     on the order in which the coalescer goroutines finish. -/
 theorem index_eq_flatten_cross_ecosystem_id_order_counterexample :
     Ex.inImageNotReported Ex.S2' Ex.crossEco "six-1" "nodejs:b/j" := by decide
+
+/-! ## Part 5 — MergeSR for any completion order of the coalescer goroutines
+
+  `coalesce` starts one goroutine per ecosystem; each appends its report to `reports` when it is done, so the
+  list MergeSR receives is in completion order.  Full statement (FALSE of the unchanged code, see the
+  counterexample): the finished report does not depend on that order. -/
+
+/-- `mergesr_order_independent_partial`: for ALL source reports and ALL lists of coalescer reports that are
+    `Compatible` (two reports — or one report under a repeated key — never store different values under one
+    key: the same `Package` under a package id, the same `Distribution`, `Repository`, `File`), MergeSR over any
+    permutation of the list yields an equivalent report: the same value under every key of Packages,
+    Distributions, Repositories, Files, and under every package id the same environments up to their order. -/
+theorem mergesr_order_independent_partial (src : Report) (rs rs' : List Report) (hp : rs.Perm rs')
+    (hc : Compatible rs) : (mergeSR src rs).Equiv (mergeSR src rs') :=
+  mergeSR_perm src rs rs' hp hc
+
+/-- `index_report_order_independent_partial`: the whole coalesce step (coalescers, MergeSR, whiteout resolver)
+    for ALL layer lists and ALL per-ecosystem artifacts: when the ecosystems' reports are `Compatible`, any two
+    completion orders give equivalent finished reports (the resolver looks at a package's environments only
+    through the largest layer index, and at `Files` only through lookups). -/
+theorem index_report_order_independent_partial (layers : List String) (ecos ecos' : List (Kind × List Layer))
+    (hp : ecos.Perm ecos') (hc : Compatible (ecos.map repOf)) (r r' : Report)
+    (h : indexCoalesce layers ecos = some r) (h' : indexCoalesce layers ecos' = some r') : r.Equiv r' :=
+  index_order_independent layers ecos ecos' hp hc r r' h h'
+
+/-- `repOf` is the report the ecosystem's coalescer returns (no coalescer fails). -/
+theorem repOf_is_coalescer_report (k : Kind) (arts : List Layer) : coalesceKind k arts = .ok (repOf (k, arts)) := by
+  obtain ⟨r, hr, _⟩ := coalesceKind_ok (S := False) k arts (fun h => h.elim)
+  simp [repOf, hr]
+
+set_option maxRecDepth 10000 in
+/-- Without `Compatible` the statement is false (finding lang-shared-id-across-ecosystems): a python and a
+    nodejs package under one package id, the python file whited out by the next layer.  With the nodejs
+    coalescer finishing last the package stays in the report; with the python coalescer finishing last it is
+    deleted — together with the nodejs environment. -/
+theorem index_report_order_counterexample :
+    ∃ layers ecos ecos' r r', ecos.Perm ecos' ∧ indexCoalesce layers ecos = some r ∧ indexCoalesce layers ecos' = some r' ∧
+      (aget "1" r.pkgs).isSome = true ∧ (aget "1" r'.pkgs).isSome = false := by
+  let py : Kind × List Layer := (.lang, [{ hash := "L0", pkgs := [{ id := "1", name := "ms", version := "2.0.0", kind := "binary", arch := "", src := "", db := "python:site", fp := "site/ms-2.0.0.dist-info/METADATA" }], repos := [{ id := "r1", name := "pypi", key := "", uri := "" }] }, { hash := "L1" }])
+  let js : Kind × List Layer := (.lang, [{ hash := "L0", pkgs := [{ id := "1", name := "ms", version := "2.0.0", kind := "binary", arch := "", src := "", db := "nodejs:node_modules/ms/package.json", fp := "node_modules/ms/package.json" }], repos := [{ id := "r2", name := "npm", key := "", uri := "" }] }, { hash := "L1" }])
+  let wh : Kind × List Layer := (.wh, [{ hash := "L0" }, { hash := "L1", files := [{ path := "site/.wh.ms-2.0.0.dist-info", kind := "whiteout" }] }])
+  refine ⟨["L0", "L1"], [py, js, wh], [js, py, wh], _, _, List.Perm.swap js py [wh], rfl, rfl, ?_, ?_⟩ <;> decide
 
 end ClairModel.Props.C01
